@@ -11,17 +11,19 @@ Impl model (transliteration of the Go code that exists, defects included)
 * `convRune`                       – the body shared (textually mirrored) by `DecodeRune`/`EncodeRune`
 * `decodeRune`, `encodeRune`       – its two instances
 * `scan`, `convLoop`               – the `for ; n <= len(rm.inputEntries); n++` search and the outer
-                                     `for len(str) > 0` loop of `Decode` (guarded) and `Encode`
-                                     (NOT guarded: `str[:n]` may exceed the slice; `extra` is what
-                                     lies between `len` and `cap` of the argument slice)
+                                     `for len(str) > 0` loop of `Decode` and `Encode` (both guarded by
+                                     `if n > len(str) { return nil, false }` since the repair of finding
+                                     `encode_unrepresentable_tail`; `extra` is what lies between `len`
+                                     and `cap` of the argument slice — an unguarded loop reads it)
 * `decode`, `encode`, `replace`    – `Decode`, `Encode`, `EncodeReplaceUnknown`
+* `encodePreFix`                   – `Encode` as it was before the repair (NOT guarded: `str[:n]` may
+                                     exceed the slice); kept only to state `fixed_encode_unrepresentable_tail`
 * `utf8Len`                        – size returned by Go's `utf8.DecodeRune`
 
 Spec
 * `encodeRuneSpec`                 – a unit is encodable iff the produced bytes decode back to it
-* `encodeSpec`, `replaceSpec`      – the same loops with the length guard `Decode` has, over
-                                     `encodeRuneSpec`; never crash, report (`fail`) resp. write one
-                                     `?` per unrepresentable character
+* `encodeSpec`, `replaceSpec`      – the same (guarded) loops over `encodeRuneSpec`; never crash,
+                                     report (`fail`) resp. write one `?` per unrepresentable character
 
 Shape assumption of the model: `contains`/`toIdx`/`fromIdx` walk their lists in lock-step (Go indexes
 `r[i]`, `inputMults[i]`, `outputMults[i]` and divides by `outputMults[i]`); on tables that satisfy
@@ -115,7 +117,7 @@ def scan (f : List Nat → Option (List Nat)) (guard : Bool) (buf : List Nat) (l
       | some out => .found n out
       | none => scan f guard buf len (n + 1) k
 
-/-- The outer loop of `Decode` (guard) / `Encode` (no guard). `fuel` bounds the iterations
+/-- The outer loop of `Decode` / `Encode` (guard; the pre-fix `Encode` had none). `fuel` bounds the iterations
 (each consumes at least one byte). `extra` = bytes between `len(str)` and `cap(str)`. -/
 def convLoop (f : List Nat → Option (List Nat)) (guard : Bool) (L : Nat) (extra : List Nat) :
     Nat → List Nat → Res
@@ -134,8 +136,15 @@ def convLoop (f : List Nat → Option (List Nat)) (guard : Bool) (L : Nat) (extr
 def decode (rm : RangeMap) (s : List Nat) : Res :=
   convLoop (decodeRune rm) true rm.inE.length [] (s.length + 1) s
 
-/-- Go: `RangeMap.Encode`; the loop bound is `len(rm.inputEntries)` there too. -/
+/-- Go: `RangeMap.Encode`; the loop bound is `len(rm.inputEntries)` there too. The search loop has
+the same length guard as `Decode` (repair of finding `encode_unrepresentable_tail`). `extra` (the
+bytes between `len(str)` and `cap(str)`) is kept as a parameter so that "the spare capacity is never
+read" is a statement (`C30.encode_capacity_irrelevant`). -/
 def encode (rm : RangeMap) (s : List Nat) (extra : List Nat := []) : Res :=
+  convLoop (encodeRune rm) true rm.inE.length extra (s.length + 1) s
+
+/-- `RangeMap.Encode` before the repair: the search loop sliced `str[:n]` without the length guard. -/
+def encodePreFix (rm : RangeMap) (s : List Nat) (extra : List Nat := []) : Res :=
   convLoop (encodeRune rm) false rm.inE.length extra (s.length + 1) s
 
 /-- Size returned by Go's `utf8.DecodeRune` (1 for an invalid or truncated sequence, 0 for none). -/
